@@ -141,6 +141,15 @@ theorem any_notscope_of_allNames (l : List Xml) (names : List String) (h : AllNa
     rw [List.any_cons, decide_eq_true hk]
     rfl
 
+theorem qdArrayOk_wd (C : Codec) (x : Option Bool) (v : Val) : qdArrayOk x (wdVal C v) = qdArrayOk x v := by
+  cases v <;> simp only [wdVal] <;> cases x <;> (try rfl) <;> (rename_i b; cases b <;> rfl)
+
+theorem qdIsArray_some (b : Bool) (v : Val) : qdIsArray (some b) v = b := rfl
+theorem qdArrayOk_null (x : Option Bool) : qdArrayOk x .null = true := by
+  cases x with
+  | none => rfl
+  | some b => cases b <;> rfl
+
 section
 variable (C : DecCodec) (S : Spec) (hC : CodecOk C S)
 
@@ -148,7 +157,9 @@ include hC in
 /-- **qualifier-declaration round trip** -/
 theorem rt_qualdecl (q : QualDecl) (h : SendableQualDecl S q) :
     decQualDecl C (encQualDecl C.toCodec q) = .ok (wdQualDecl C.toCodec q) := by
-  obtain ⟨hpl, hsc⟩ := h
+  obtain ⟨hpl, hsc, hqt, hqa⟩ := h
+  have hqa' : qdArrayOk (some q.isArray) (wdVal C.toCodec q.val) = true := by
+    rw [qdArrayOk_wd]; exact hqa
   have hAv := allNames_encVal_plain C.toCodec S q.ty q.val hpl
   rw [encQualDecl_eq]
   by_cases hemp : q.scopes.isEmpty = true
@@ -175,8 +186,9 @@ theorem rt_qualdecl (q : QualDecl) (h : SendableQualDecl S q) :
       boolAttrOf_false _ "TOINSTANCE" _ (qdAttrs_TI q), boolAttrOf_false _ "TRANSLATABLE" _ (qdAttrs_TR q),
       pure_eq_ok, dBool, Option.getD_some, wdQualDecl, wdScopes, hemp, if_true]
     rcases hany with h | ⟨h, hn⟩
-    · simp only [h, if_true, hu, bind_ok]
-    · simp only [h, Bool.false_eq_true, if_false, hn]
+    · simp only [h, if_true, hu, bind_ok, hqa', hqt, Bool.not_true, Bool.false_eq_true, if_false, qdIsArray_some]
+    · simp only [h, Bool.false_eq_true, if_false, hn, qdArrayOk_null, hqt, Bool.not_true, qdIsArray_some, bind_ok,
+        pure_eq_ok]
   · -- one SCOPE child
     have hs : encScope q.scopes = [E "SCOPE" (scopeAttrList q.scopes) []] := by
       simp only [encScope, hemp, Bool.false_eq_true, if_false, scopeAttrList]
@@ -216,8 +228,9 @@ theorem rt_qualdecl (q : QualDecl) (h : SendableQualDecl S q) :
       boolAttrOf_false _ "TOINSTANCE" _ (qdAttrs_TI q), boolAttrOf_false _ "TRANSLATABLE" _ (qdAttrs_TR q),
       pure_eq_ok, dBool, Option.getD_some, wdQualDecl, wdScopes, hemp, Bool.false_eq_true, if_false]
     rcases hany with h | ⟨h, hn⟩
-    · simp only [h, if_true, hu, bind_ok]
-    · simp only [h, Bool.false_eq_true, if_false, hn]
+    · simp only [h, if_true, hu, bind_ok, hqa', hqt, Bool.not_true, Bool.false_eq_true, if_false, qdIsArray_some]
+    · simp only [h, Bool.false_eq_true, if_false, hn, qdArrayOk_null, hqt, Bool.not_true, qdIsArray_some, bind_ok,
+        pure_eq_ok]
 
 end
 
@@ -284,7 +297,7 @@ theorem rt_inst_top (i : Inst) (d : Nat) (h : SendableInst S i) (hd : depthInst 
       have hkeys := rt_keys C S hC ks hsp.1
       cases ns with
       | none =>
-        have hin := rt_instancename C c ks hsp.2 hkeys
+        have hin := rt_instancename C c ks hsp.2.1 (keysOk_wdKeys C S ks hsp.1) hkeys
         simp only [encInst, encPath, wdInst, wdPath]
         unfold E at hI hin ⊢
         exact decodeTop_NAMEDINSTANCE C _ _ _ _ _ _ _ _ _ _ _ _ hin hI
